@@ -1,10 +1,10 @@
-\* quick, merge / DOT-centred: the 4 types a.A, ab.A, b.B, bb.B (package names whose concatenations collide), each class
-\* with at most one field of a candidate or library type, x {none, H, P, HP} x 3 include filters; relation loop of
-\* MergeHeaderFile and node loop of BuildMapTree in every order (3-type subsets: Arch_MC_merge.cfg, thorough)
+\* thorough, merge / DOT-centred: 3 or 4 types in the packages a, ab, b, bb (concatenations collide), each class with at
+\* most one field of a candidate or library type, x {none, H, P, HP} x 3 include filters; relation loop of
+\* MergeHeaderFile and node loop of BuildMapTree in every order
 SPECIFICATION Spec
 CONSTANTS
   Universe <- U_collide
-  MinTypes = 4
+  MinTypes = 3
   MaxTypes = 4
   Kinds = {"field"}
   MaxRel = 1
